@@ -175,7 +175,18 @@ func (e *env) exec(c *ccase, rnd *h.Rand) ([]*delivered, error) {
 	} else {
 		cfg = h.RecvNoneConfig()
 	}
-	rc, err := h.OpenRecvChannel(cfg, h.RecvAck(65535, 65535, 512, 2*1024*1024), c.server, 11, 22, 1, ln, rn)
+	// on every third unsecured server channel the peer first sends an OPN frame that names a
+	// real policy with a real certificate and garbage behind it: readChunk rejects it, but has
+	// already written the policy URI into the channel configuration (the mode stays None)
+	poison := !c.secure() && c.server && rnd.Chance(35)
+	var rc *h.RecvChannel
+	var err error
+	if poison {
+		cfg.LocalKey, cfg.Certificate = e.keyA.Key, e.keyA.CertDER
+		rc, err = h.RecvOpenServerChannel(cfg, h.RecvAck(65535, 65535, 512, 2*1024*1024), 11, 22, ln, rn)
+	} else {
+		rc, err = h.OpenRecvChannel(cfg, h.RecvAck(65535, 65535, 512, 2*1024*1024), c.server, 11, 22, 1, ln, rn)
+	}
 	if err != nil {
 		return nil, err
 	}
@@ -194,6 +205,18 @@ func (e *env) exec(c *ccase, rnd *h.Rand) ([]*delivered, error) {
 	bodies := map[uint32][]byte{}
 	sent := map[uint32]int{}
 	var frames [][]byte
+	if poison {
+		lpb := func(p []byte) []byte {
+			l := []byte{byte(len(p)), byte(len(p) >> 8), byte(len(p) >> 16), byte(len(p) >> 24)}
+			return append(l, p...)
+		}
+		f := append([]byte("OPNF\x00\x00\x00\x00\x0b\x00\x00\x00"), lpb([]byte(ua.SecurityPolicyURIBasic256Sha256))...)
+		f = append(f, lpb(e.keyB.CertDER)...)
+		f = append(f, 0xff, 0xff, 0xff, 0xff)
+		f = append(f, rnd.Bytes(256)...)
+		f[4], f[5], f[6], f[7] = byte(len(f)), byte(len(f)>>8), byte(len(f)>>16), byte(len(f)>>24)
+		frames = append(frames, f)
+	}
 	seq := uint32(1)
 	for _, o := range c.ops {
 		if bodies[o.req] == nil {
@@ -227,6 +250,9 @@ func (e *env) exec(c *ccase, rnd *h.Rand) ([]*delivered, error) {
 		m := rc.SC.Receive(ctx)
 		if m.Err == io.EOF {
 			break
+		}
+		if m.Err != nil && poison && i == 0 {
+			continue // the rejected OPN frame
 		}
 		if m.Err != nil {
 			if strings.Contains(m.Err.Error(), "timeout") {
